@@ -114,8 +114,7 @@ def write_to_fits(
     """
     # Check if the file exists
     if filename.exists() and not overwrite:
-        logging.info("File exists and overwrite is set to False")
-        return
+        raise FileExistsError(f"File {filename} already exists!")
 
     # Ensure the data is a 2D array
     if data.ndim != 2:
@@ -166,8 +165,7 @@ def write_to_jpg(
     """
     # Check if the file exists
     if filename.exists() and not overwrite:
-        logging.info("File exists and overwrite is set to False")
-        return
+        raise FileExistsError(f"File {filename} already exists!")
 
     # Ensure the data is a 2D array
     if data.ndim != 2:
@@ -211,8 +209,7 @@ def write_to_npy(
     """
     # Check if the file exists
     if filename.exists() and not overwrite:
-        logging.info("File exists and overwrite is set to False")
-        return
+        raise FileExistsError(f"File {filename} already exists!")
 
     # Ensure the data is a 2D array
     if data.ndim != 2:
